@@ -98,6 +98,15 @@ Supported(maxm) ==
     \cup {G(t, PathK(b, n)) : t \in {"MultiPoint", "LineString"}, b \in {0, 3}, n \in 1..3}
     \cup {G(t, PathsK(1, v)) : t \in {"MultiLineString", "Polygon"}, v \in VecsFrom(1, maxm, {1, 2, 3})}
     \cup {G("MultiPolygon", [p \in DOMAIN vv |-> PathsK(3 * p, vv[p])]) : vv \in VecsFrom(1, maxm, VecsFrom(1, 2, {1, 3}))}
+(* repeated vertices: consecutive equal positions inside a member (a doubled corner, a two-point line of length zero) are
+   part of the geometry and must survive; both codecs *)
+DupPath(b, n, at) == LET p == PathK(b, n) IN SubSeq(p, 1, at) \o <<p[at]>> \o SubSeq(p, at + 1, n)
+WithDuplicates ==
+    {G("LineString", DupPath(b, n, 1)) : b \in {0, 3}, n \in 1..3}
+    \cup {G("LineString", DupPath(0, 3, at)) : at \in 1..3}
+    \cup {G(t, <<DupPath(1, 3, at), PathK(5, 2)>>) : t \in {"MultiLineString", "Polygon"}, at \in 1..3}
+    \cup {G(t, <<PathK(1, 2), DupPath(4, 2, at)>>) : t \in {"MultiLineString", "Polygon"}, at \in 1..2}
+    \cup {G("MultiPolygon", << <<DupPath(2, 3, at)>>, <<PathK(6, 3), DupPath(1, 1, 1)>> >>) : at \in 1..3}
 (* C06 only: empty members after a non-empty first member ("at least one vertex in its first member", "arbitrary member counts") *)
 WithEmpties(maxm) ==
     {G(t, PathsK(1, v)) : t \in {"MultiLineString", "Polygon"}, v \in {w \in VecsFrom(2, maxm, {0, 2}) : w[1] > 0}}
